@@ -12,15 +12,26 @@ TRUSTED = [
     "specification: affine chord-and-tangent law over Fp2 = Fp[u]/(u^2 - qnr) built from the generic tower spec (Spec/Tower.lean, Spec/CurveX.lean); "
     "the twist (a', b', generator, order, cofactor, qnr) is read from the running library and its defining properties are checked by the driver "
     "(qnr non-residue, G on the twist, r*G = O, h*r in the Hasse interval of E'(Fp2))",
-    "class C (compared with [k]Q / k*P + m*Q in the specification per line, not modelled): every ep2_mul_* variant incl. the Frobenius-based GLS "
-    "recodings, fixed-base and simultaneous forms, ep2_mul_sim_lot/dig; the loops shared with ep_mul_* are covered by the abstract-group theorems of "
-    "C03 (re-exported)",
+    "class A (model executed per line, model column = its prediction incl. errors; theorem for every integer scalar): ep2_mul_basic/big/dig, slide "
+    "(|k| unreduced), monty, gen/fix/fix_combs, fix_combd, fix_basic, fix_lwnaf, sim_trick, sim_joint, sim_dig; Frobenius paths ep2_mul_gls_imp "
+    "(= lwnaf = ep2_mul), ep2_mul_sim_endom (= sim_inter / sim / sim_gen, the ep2_mul calls of sim_basic and of the early exits), ep2_mul_sim_lot "
+    "for n <= 10, with bn_rec_frb (BN branch) in integer form.  The models run over the affine law of the twist (Spec/CurveX), the C loops over "
+    "the projective formulas: the link is the formula theorems.  The Frobenius data (constants of ep2_frb, family parameter, BN flag) are read "
+    "from the running library; the driver checks psi(G) = [p mod r]G and that the four columns of the bn_rec_frb lattice annihilate G "
+    "(hypotheses of rec_frb_bn_congr / ep2_mul_gls_correct)",
+    "class C (compared with [k]Q / sum k_i*P_i in the specification per line, not modelled): ep2_mul_lwreg (ep2_mul_reg_gls, bn_rec_sac), the "
+    "bucket branch of ep2_mul_sim_lot (n > 10), ep2_mul_cof; bn_rec_frb for non-BN families is modelled (digits in base |x|) but has no theorem",
     "Frobenius: ep2_frb(Q, i) = [p^i mod r]Q is checked per line for subgroup points and 'image on the twist' for points outside; the theorem "
     "endo_is_scalar_on_cyclic reduces the subgroup claim to the generator under additivity (additivity itself is observed, not proved)",
     "cofactor clearing: image has order dividing r and is zero iff h*P is; points outside the subgroup come from e2pt (x chosen by the generator, y "
     "by the library's square root, curve equation re-checked by the driver)",
 ]
-ASSUMPTIONS = ["curves over cubic/quartic/octic extensions (ep3/ep4/ep8) exist only for other pairing field sizes and are not covered (PARTIAL)",
+ASSUMPTIONS = ["bn_rec_frb is modelled on integers (floor division, +1 on negative quotients, residues centred by comparing bit lengths); the "
+               "fixed-length digit arithmetic of bn_mul / bn_div / bn_mod underneath is C01's subject; tie: every lwnaf / mul / sim / lot line",
+               "the GLS theorems assume psi(Q) = [p mod r]Q: true on the order-r subgroup (checked on G, additivity of psi observed per line by the "
+               "frb lines); for twist points outside the subgroup the GLS routines are compared with the specification only where the generator "
+               "presents them (e2m takes subgroup points)",
+               "curves over cubic/quartic/octic extensions (ep3/ep4/ep8) exist only for other pairing field sizes and are not covered (PARTIAL)",
                "p381 (BLS12-381, M-type twist) is run in the thorough tier"]
 RULE = ("both pairing-friendly curves of the configuration (BN-P256, SM9-P256): identity, generator multiples, equal/opposite operands, projective and "
         "Jacobian operands with random z, every alias pattern; every multiplication variant by name x every scalar class of C03; Frobenius powers "
@@ -146,6 +157,11 @@ def gen_lines(rng, cv, count, outside):
         for _ in range(3):
             out.append("e2s %s %s %x %s %x" % (v, ptok(rng, cv, rng.choice(pool + [cv.g]), "P"), fro(rng.choice(pats)),
                                               ptok(rng, cv, rng.choice(pool), "P"), fro(rng.choice(pats))))
+    # the decomposition itself (invisible in k*Q: any valid decomposition gives the same point): every scalar class, structured scalars
+    for kc in range(c03.NCLASS):
+        out.append("e2frb %s" % hx(c03.scalar(rng, cv.n, kc)))
+    for cs in pats:
+        out.append("e2frb %s" % hx(fro(cs)))
     for n_ in (1, 2, 4):
         toks = []
         for _ in range(n_):
